@@ -558,6 +558,13 @@ def negative_controls(run):
 # ------------------------------------------------------------------ main
 def main(tier):
     run = Run("C07", tier)
+    try:
+        return _main(run, tier)
+    finally:
+        run.cleanup()       # also on MachineryError: no scratch directories left behind
+
+
+def _main(run, tier):
     sd = seed()
     rng = random.Random(sd * 7919 + 7)
     quick = tier == "quick"
